@@ -60,8 +60,12 @@ Spec == Init /\ [][Next]_vars
 \* ---- properties (C19)
 C19_Bounded == 0 <= d /\ d <= Cap(p)
 C19_DelayMonotone == \A n \in Ns : Delay(p, n) <= Delay(p, n + 1) /\ Delay(p, n) <= Cap(p) /\ Delay(p, n) >= 0
+\* factor^n, stopping as soon as it exceeds lim (factor^n itself would overflow TLC's 32-bit integers)
+RECURSIVE SPow(_, _, _, _)
+SPow(cur, f, n, lim) == IF n = 0 \/ cur > lim THEN cur ELSE SPow(cur * f, f, n - 1, lim)
 C19_DelayIsMinCapExp == \A n \in 0..8 : \* the direct formula, wherever it cannot overflow TLC's integers
-    (Factor(p) ^ n <= 100000 /\ Base(p) <= 10000) => Delay(p, n) = Min(Cap(p), Base(p) * Factor(p) ^ n)
+    LET pw == SPow(1, Factor(p), n, 100000) IN
+    (pw <= 100000 /\ Base(p) <= 10000 /\ Factor(p) <= 10000) => Delay(p, n) = Min(Cap(p), Base(p) * pw)
 C19_WaitsNonDecreasing == [][(p.nojitter /\ lastWait >= 0 /\ lastWait' >= 0) => lastWait' >= lastWait]_vars
 C19_QueryStateless == [][\A n \in Ns : Query(n) => attempt' = attempt]_vars
 
